@@ -1,0 +1,6 @@
+//go:build verif
+
+package md
+
+// VerifLoadMd exposes loadMd to the verification harness (internal/verifdump).
+func VerifLoadMd(input []rune) { loadMd(input) }
